@@ -461,7 +461,7 @@ static std::string handle(std::vector<std::string> &a)
     }
     return hex(b);
   }
-  if (c == "mode")
+  if (c == "mode" || c == "modes")
   {
     bytes k = unhex(a[3]), iv = unhex(a[4]), data = unhex(a[5]);
     k.resize(16);
@@ -471,8 +471,21 @@ static std::string handle(std::vector<std::string> &a)
     Aesmode *m = f.createCryMaster(a[1] == "e", (u8_t)atoi(a[2].c_str()));
     if (m == NULL)
       return "NULL";
-    for (size_t i = 0; i + 16 <= data.size(); i += 16)
-      m->runcry(data.data() + i);
+    if (c == "modes")
+    {
+      // every block goes through ONE reused scratch block (callers such as the chunk buffers refill in place)
+      u8_t scratch[16];
+      for (size_t i = 0; i + 16 <= data.size(); i += 16)
+      {
+        memcpy(scratch, data.data() + i, 16);
+        m->runcry(scratch);
+        memcpy(data.data() + i, scratch, 16);
+        memset(scratch, 0xEE, 16);
+      }
+    }
+    else
+      for (size_t i = 0; i + 16 <= data.size(); i += 16)
+        m->runcry(data.data() + i);
     delete m;
     return hex(data);
   }
